@@ -61,7 +61,8 @@ def strat():
                                   prev_conf=draw(st.one_of(st.none(), st.floats(0, 1, allow_nan=False))),
                                   share_from=draw(st.integers(0, 3))))
             engines.append(dict(table=table, lines=lines))
-        return dict(geoms=geoms, engines=engines, nreg=draw(st.integers(1, 2)))
+        # line ids: unique on the page, numbered inside every region (l0, l1 in each), or missing
+        return dict(geoms=geoms, engines=engines, nreg=draw(st.integers(1, 2)), ids=draw(st.sampled_from(["page", "page", "region", "none"])))
     return case()
 
 
@@ -107,6 +108,12 @@ def build_layouts(case):
                 line.polygon = line.polygon + 1.0
                 line.heights = [line.heights[0] + 1.0, line.heights[1]]
                 line.index = 7
+            line.verif_pos = li
+            scheme = case.get("ids", "page")
+            if scheme == "region":
+                line.id = "l%d" % (li // case["nreg"])
+            elif scheme == "none":
+                line.id = None
             groups[li % case["nreg"]].append(line)
             flat[e].append(line)
         for r, g in enumerate(groups):
@@ -140,7 +147,9 @@ def body(ctx, case):
     M = merge_module()
     layouts = build_layouts(case)
     n_eng = len(layouts)
-    per_engine = [sorted(pl.lines_iterator(), key=lambda l: l.id) for pl in layouts]
+    per_engine = [sorted(pl.lines_iterator(), key=lambda l: l.verif_pos) for pl in layouts]
+    if case.get("ids") in ("region", "none") and len(case["geoms"]) >= 2:
+        ctx.event("line_ids_not_unique_on_the_page")
     # oracle side: everything needed is read before the merge mutates engine 0
     expect = []
     tie = False
@@ -165,7 +174,7 @@ def body(ctx, case):
     geo_before = snapshot(layouts[0])
     desc = lambda: "case=%r expected=%r" % (case, [(x["winner"], x["confs"]) for x in expect])
     ctx.must("merge_raises", M.merge_layouts, layouts)
-    merged = sorted(layouts[0].lines_iterator(), key=lambda l: l.id)
+    merged = sorted(layouts[0].lines_iterator(), key=lambda l: l.verif_pos)
     for li, (line, ex) in enumerate(zip(merged, expect)):
         info = lambda: "line %d: got transcription %r conf %r; expected winner %r transcription %r conf %r; " % (
             li, line.transcription, line.transcription_confidence, ex["winner"], ex["t"], ex["conf"]) + desc()
